@@ -589,3 +589,8 @@ def oracle(lines, impl):
             if binom_seen[(n - 1, k)] + binom_seen[(n - 1, k - 1)] != c:
                 fails.append(Failure(None, "binom:pascal", "Pascal's rule fails at (%d,%d)" % (n, k)))
     return fails
+
+# --- source tie (translator tools/rs2lean.py: the straight-line functions of this property are regenerated from /repo/src on every run
+# into lean/Compute/Generated/SrcC17.lean and proved equal to the hand model in Props/SrcTieC17.lean)
+from . import srctie
+srctie.wire(globals(), 'C17')
